@@ -16,11 +16,11 @@ PROPERTY = 'C17'
 HASHSEED_INDEPENDENT = True
 
 TIERS = {
-    'quick': dict(worlds=16, runs=1200, batch=100, det_runs=24, soft_timeout=240,
+    'quick': dict(fork=False, worlds=16, runs=1200, batch=100, det_runs=24, soft_timeout=240,
                   variants=['no_use_list_scan', 'merge_ignores_lookup', 'hol_no_comb_merge',
                             'lookup_not_updated', 'explain_drops_comb'],
                   variant_budget=600, min_tests=150),
-    'thorough': dict(worlds=64, runs=25000, batch=250, det_runs=64, soft_timeout=600,
+    'thorough': dict(fork=False, worlds=64, runs=25000, batch=250, det_runs=64, soft_timeout=600,
                      variants=['no_use_list_scan', 'merge_ignores_lookup', 'hol_no_comb_merge',
                                'explain_drops_comb', 'lookup_not_updated', 'class_list_not_moved'],
                      variant_budget=5000, min_tests=300),
